@@ -78,7 +78,7 @@ def run(ctx):
         rule=("non-trivial: base cases (valid configuration decoded, defaults and discard_overflow checked), and every "
               "mutation case on which the specification constrains the outcome (unknown key at a strict path, wrongly "
               "typed value, value violating its validate tag, missing required value, placeholder, unresolved "
-              "placeholder); direct cases of the header-list decoder and of the property-file reader; app cases on which at least one "
+              "placeholder); direct cases of the header-list decoder, of the property-file reader and of the environment resolver; rel cases whose section violates a relation between options; ptype / pht cases; app cases on which at least one "
               "held option is judged against the written section and the registered default; distinct = distinct case lines"),
         key_fn=key_fn, what_fn=what_fn,
         translators=[("schema", "ConfigSchemaGen.v")],
@@ -87,10 +87,11 @@ def run(ctx):
             "translator harness/cmd/translate schema (reflection over the real plugin registry after the CLI's imports; package harness/internal/a16schema)",
             "verif hooks in /repo: core/plugin/verif_schema.go (read-only registry listing), cli/verif_export.go (exports readConfig)",
             "extraction: ExtrOcamlBasic only; OCaml driver ocaml/C17/main.ml + ocaml/common/conv.ml",
-            "correspondence harness harness/cmd/hC17 (real config.DecodeAndValidate on cli.DefaultConfig() and on every registered default config; cli.readConfig in a subprocess; util.DecodeHeader / util.DecodeHTTPConfigHeaders and confutil.PropertyTagResolver called directly; component sections through the pluginconfig hook + plugin.New + the registered constructor, products searched by reflection; config.DecodeAndValidate on reflect.StructOf types)",
+            "correspondence harness harness/cmd/hC17 (real config.DecodeAndValidate on cli.DefaultConfig() and on every registered default config; cli.readConfig in a subprocess; util.DecodeHeader / util.DecodeHTTPConfigHeaders and confutil.PropertyTagResolver / confutil.EnvTagResolver called directly; component sections through the pluginconfig hook + plugin.New + the registered constructor, products searched by reflection; config.DecodeAndValidate on reflect.StructOf types)",
             "the reflection search for held configurations and the table of constructor-derived options (harness/internal/a16schema/applied.go FindHeld / RulesFor / ctorDerived); tied by the `app` correspondence run",
             "the table of constructor-enforced constraints in harness/internal/a16schema/reflect.go ctorConstraint (which option of which Go config type a constructor checks: http provider Headers); tied by the correspondence run on every component carrying it",
-            "oracles (Section variables; answered per case by the real libraries through the harness): os.LookupEnv, the bytes of the property files (the reader itself is modelled), time.ParseDuration, datasize, zapcore.Level.UnmarshalText, strconv.ParseInt/ParseFloat, endpoint/url-path validators",
+            "the table of relations between options enforced by constructors in harness/internal/a16schema/reflect.go ctorRelations (per interface + registered name + Go config type: file / uris / decoder of the http providers); tied by the `rel` correspondence cases on all five providers and pinned by Gen/ConfigSchema_bridge.v",
+            "oracles (Section variables; answered per case by the real libraries through the harness): the entries of the environment (the lookup itself is modelled: env_of_list), the bytes of the property files (the reader itself is modelled), time.ParseDuration, datasize, zapcore.Level.UnmarshalText, strconv.ParseInt/ParseFloat, endpoint/url-path validators",
             "modelled, not verified: mapstructure's decoding rules, validator.v9's tag semantics, the regexp of confutil.findTags (hand-written scanner), viper/YAML reading; component constructors are not modelled (bases are calibrated to construct)",
         ],
         assumptions=["mapstructure v1.5.1, validator.v9 and viper behave as modelled (exercised by the correspondence run)",
